@@ -197,3 +197,145 @@ def variant_cases(ctx, prop, mode, default_fsync_only=False):
     if mode == 'fault' and ctx.tier == 'quick':
         vs = [v for v in vs if v['name'].startswith(FAULT_QUICK_VARIANTS)]
     return [{'prop': prop, 'variant': v, 'mode': mode, 'tier': ctx.tier, 'name': v['name'], 'timeout': 2400} for v in vs]
+
+
+# ------------------------------------------------------------------------------------ E5: syscall granularity
+def run_sys_variant(case):  # noqa: C901
+    """Worker: kill (mode 'syskill'), errno injection ('sysfault') or the offline ordering checker ('sysorder') at real-syscall level."""
+    from . import sysinject  # pylint: disable=import-outside-toplevel
+
+    if not sysinject.available():
+        return common.case_result('no-strace', False, inconclusive='strace is not installed')
+    mode = case['mode']
+    name = case['variant']['name']
+    base = common.mkscratch('sys-')
+    counters, vios = Counter(), []
+    sample = None
+    try:
+        tmpl = crashlab.Template(base, case['variant'])
+        dry = sysinject.run_traced(tmpl)
+        if dry.get('error') or dry['exit'] != 0 or (dry['result'] or {}).get('raised'):
+            return common.case_result(name, False, inconclusive=f'{name}: syscall dry run failed: {dry.get("error")} {dry.get("result")}')
+        root = os.path.join(dry['rundir'], 'c')
+        bounds = sysinject.boundaries(dry['calls'], root, for_faults=(mode == 'sysfault'))
+        shapes = [(c.name, c.ordinal, tuple(_cls(r) for r in c.rel(root))) for c in bounds]
+        briefs = [c.brief(root) for c in bounds]
+        counters['sys-variants'] += 1
+        counters['sys-boundaries'] += len(bounds)
+        for c in bounds:
+            counters[f'syscall:{c.name}'] += 1
+            if any('packs.idx' in r for r in c.rel(root)):
+                counters['sys-boundaries-inside-sqlite'] += 1
+        if mode == 'sysorder':
+            is_delete = any(o['op'] == 'delete' for o in tmpl.ops)
+            probs, stats = sysinject.ordering_problems(dry['calls'], root, is_delete=is_delete)
+            counters.update({f'order:{k}': v for k, v in stats.items()})
+            counters['ordering-traces-checked'] += 1
+            for mech, msg in probs[:3]:
+                vios.append(common.violation(f'{mech}:{name.split("@")[0]}', f'{name}: {msg}', {'variant': case['variant'], 'mode': mode}))
+            common.rmtree(dry['rundir'])
+            return common.case_result(sig=name + ':order', nontrivial=len(bounds) >= 2, counters=counters, violations=vios,
+                                      sample={'variant': name, 'syscalls': briefs[:60]})
+        common.rmtree(dry['rundir'])
+        idxs = list(range(len(bounds)))
+        if case.get('limit') and len(idxs) > case['limit']:
+            import random as _r  # pylint: disable=import-outside-toplevel
+
+            rnd = _r.Random(f'{name}-{case.get("seed", 0)}')
+            # always keep the boundaries inside SQLite and around fsync; sample the rest
+            keep = [i for i in idxs if bounds[i].name in ('fsync', 'fdatasync') or any('packs.idx' in r for r in bounds[i].rel(root))]
+            rest = [i for i in idxs if i not in keep]
+            keep = rnd.sample(keep, min(len(keep), case['limit'] // 2))
+            idxs = sorted(set(keep + rnd.sample(rest, min(len(rest), case['limit'] - len(keep)))))
+        is_repack = case['variant'].get('is_repack')
+        for i in idxs:
+            c = bounds[i]
+            errs = ['KILL'] if mode == 'syskill' else (['ENOSPC'] if c.name in ('write', 'pwrite64', 'ftruncate') else ['EIO'])
+            for err in errs:
+                inject = f'{c.name}:signal=KILL:when={c.ordinal}' if mode == 'syskill' else f'{c.name}:error={err}:when={c.ordinal}'
+                run = sysinject.run_traced(tmpl, inject=inject)
+                try:
+                    if run.get('error'):
+                        counters['sys-cases-discarded'] += 1
+                        continue
+                    root2 = os.path.join(run['rundir'], 'c')
+                    b2 = sysinject.boundaries(run['calls'], root2, for_faults=(mode == 'sysfault'))
+                    if mode == 'syskill':
+                        # the killed call never returns, so it is not in the log: the calls before it must be the dry-run prefix
+                        pre = [(x.name, x.ordinal, tuple(_cls(r) for r in x.rel(root2))) for x in b2]
+                        if not run['killed'] or pre != shapes[:len(pre)] or len(pre) not in (i, i + 1):
+                            counters['sys-cases-discarded'] += 1
+                            continue
+                        counters['sys-kills'] += 1
+                    else:
+                        hit = [x for x in b2 if x.injected]
+                        if len(hit) != 1 or (hit[0].name, hit[0].ordinal, tuple(_cls(r) for r in hit[0].rel(root2))) != shapes[i]:
+                            counters['sys-cases-discarded'] += 1
+                            continue
+                        counters['sys-faults'] += 1
+                        counters[f'sys-fault:{c.name}:{err}'] += 1
+                        res = run['result']
+                        if res is None:
+                            vios.append(common.violation(f'sysfault:process-died:{name.split("@")[0]}',
+                                                         f'{name}: {briefs[i]} failing with {err}: the process died (exit {run["exit"]})',
+                                                         {'variant': case['variant'], 'mode': mode, 'inject': inject}))
+                            continue
+                        counters['sys-outcome:' + ('raised' if res['raised'] else 'completed')] += 1
+                    tag = 'syskill' if mode == 'syskill' else 'sysfault'
+                    probs, cnt = crashlab.disk_oracle(tmpl, run['rundir'], tag)
+                    counters.update(cnt)
+                    counters['sys-oracle-evaluations'] += 1
+                    if mode == 'sysfault':
+                        raised = run['result']['raised']
+                        for m, g in map(tuple, run['result'].get('problems') or []):
+                            probs.append((f'sysfault:{m}', g))
+                        if not (is_repack and raised):
+                            rst, rres = crashlab.rerun(tmpl, run['rundir'])
+                            counters['sys-reruns'] += 1
+                            if rst != 'ok' or rres is None:
+                                probs.append(('sysfault:rerun-crashed', f'rerun child ended with {rst} {rres}'))
+                            else:
+                                if rres.get('raised'):
+                                    probs.append(('sysfault:rerun-raised', f'after the fault cleared, re-running on a new handle raised {rres["raised"]}'))
+                                for m, g in map(tuple, rres.get('problems') or []):
+                                    probs.append((f'sysfault:rerun:{m}', g))
+                    for mech, msg in probs[:3]:
+                        vios.append(common.violation(f'{mech}:{name.split("@")[0]}',
+                                                     f'{name}: {"kill at" if mode == "syskill" else err + " injected into"} syscall {i}/{len(bounds)} '
+                                                     f'{briefs[i]}: {msg}', {'variant': case['variant'], 'mode': mode, 'inject': inject,
+                                                                            'syscalls': briefs}))
+                    if sample is None and any('packs.idx' in r for r in c.rel(root)):
+                        sample = {'variant': name, 'injected': inject, 'at': briefs[i], 'syscalls': briefs[:50]}
+                finally:
+                    common.rmtree(run['rundir'])
+            if len(vios) >= 9:
+                break
+        res = common.case_result(sig=name + ':' + mode, nontrivial=len(bounds) >= 2, counters=counters, violations=vios,
+                                 sample=sample or {'variant': name, 'syscalls': briefs[:50]})
+        res['distinct'] = counters['sys-kills'] + counters['sys-faults']
+        res['evaluations'] = max(1, counters['sys-oracle-evaluations'])
+        return res
+    finally:
+        common.rmtree(base)
+
+
+def _cls(rel):
+    top = rel.split(os.sep)[0]
+    return top if top in ('loose', 'packs', 'sandbox', 'duplicates') else ('index' if top.startswith('packs.idx') else 'other')
+
+
+run_sys_variant.case_timeout = 2400
+
+
+def sys_cases(ctx, prop, mode, names=None, limit=None, default_fsync_only=False):
+    vs = variants.variants('quick' if ctx.tier == 'quick' else 'thorough', default_fsync_only=default_fsync_only)
+    if names:
+        vs = [v for v in vs if v['name'].startswith(tuple(names))]
+    seen, out = set(), []
+    for v in vs:
+        key = v['name'].split('@')[0] if ctx.tier == 'quick' else v['name']
+        if key in seen:
+            continue
+        seen.add(key)
+        out.append({'prop': prop, 'variant': v, 'mode': mode, 'name': v['name'] + ':' + mode, 'limit': limit, 'seed': ctx.seed, 'timeout': 2400})
+    return out
